@@ -16,7 +16,7 @@ HOSTILE_LINES = [b"", b"\x00", b"\xff\xfe\xfd", b"{", b"}", b"[", b'{"a":', b'{"
                  b'{"ids":[1,null,3]}', b'{"obj":{"list":[null]}}', b'{"a":null,"b":[null,null]}', b"[null]", b'{"a":[{"b":null}]}', b'{"_entry":null}', b'{"a":9007199254740993}',
                  b'a=1 a=2 a', b'{"a":"b"} trailing', b'{"a":1}{"a":2}',
                  b'{"caf\xe9": 1}', b'{"k\xff": 1}', b'{"\xe4\xb8": 2}', b'{"a\xff": 1, "\xffb": 2, "\xc3": 3}', b'caf\xe9=1 k\xff=2']
-SWEEP_STAGES = ['| json', '| json a, ids, obj', '| json x="a", y="obj.list[0]", z="ids[1]"', '| logfmt', '| logfmt a, b', '| unpack', '| regexp `(?P<k>[a-z]+)=(?P<v>[^ ]*)`',
+SWEEP_STAGES = ['| json', '| json a, ids, obj', '| json x="a", y="obj.list[0]", z="ids[1]"', '| logfmt', '| logfmt a, b', '| unpack', '| regexp `(?P<k>[a-z]+)=(?P<v>[^ ]*)`', '| regexp `(?P<a>[a-z]+)(?: (?P<took>[0-9]+ms))?`', '| regexp `(?P<a>[a-z]+)|(?P<b>[0-9.]+)`',
                 '| pattern "<a> <b>"', '| pattern "<_>=<v>"', '| decolorize', '| line_format "{{ .a }}/{{ __line__ }}"', '| label_format z="{{ .a | ToUpper }}"', '|= ip("10.0.0.0/8")',
                 '!= ip("::1")', '| json | a > 1', '| line_format "{{ repeat 1000000000000 \\"x\\" }}"', '| line_format "{{ indent 1000000000000 .app }}"',
                 '| line_format "{{ alignLeft 1000000000000 .app }}"', '| label_format z="{{ alignRight 999999999999 .app }}"', '| line_format "{{ repeat (int .n) \\"-\\" }}"',
